@@ -1,5 +1,22 @@
+//! vh-scalars: built-in scalars, validators, serde<->value conversion, connection cursors.
+//! Pure in-process calls and small derive-built schemas; no schedule control needed.
+
+mod c07;
+mod c08;
+mod c16;
+mod c32;
+mod util;
+
 fn main() {
     let id = std::env::args().nth(1).unwrap_or_default();
-    println!("INCONCLUSIVE property={id} reason=vh-scalars has no check for this property yet");
-    std::process::exit(2);
+    match id.as_str() {
+        "C07" => c07::main(),
+        "C08" => c08::main(),
+        "C16" => c16::main(),
+        "C32" => c32::main(),
+        other => {
+            println!("INCONCLUSIVE property={other} reason=vh-scalars has no check for this property");
+            std::process::exit(2);
+        }
+    }
 }
